@@ -144,6 +144,11 @@ DRV_CMD(bmp_pitch, "bmp.pitch") {
   uint16_t bits = static_cast<uint16_t>(toU64(need(a, 0))); int32_t w = static_cast<int32_t>(toI64(need(a, 1)));
   return std::to_string(ImageHeader::CalcPixelByteWidth(bits, w)) + " " + std::to_string(ImageHeader::CalculatePitch(bits, w));
 }
+// bmp.pitchgen: same observable; the model side prints the formulas translated from the source (Gen/Formulas.lean)
+DRV_CMD(bmp_pitchgen, "bmp.pitchgen") {
+  uint16_t bits = static_cast<uint16_t>(toU64(need(a, 0))); int32_t w = static_cast<int32_t>(toI64(need(a, 1)));
+  return std::to_string(ImageHeader::CalcPixelByteWidth(bits, w)) + " " + std::to_string(ImageHeader::CalculatePitch(bits, w));
+}
 // bmp.pitchsweep <bits> <w0> <w1> : hash over all widths w0 <= w < w1
 DRV_CMD(bmp_pitchsweep, "bmp.pitchsweep") {
   uint16_t bits = static_cast<uint16_t>(toU64(need(a, 0))); int64_t w0 = toI64(need(a, 1)), w1 = toI64(need(a, 2));
